@@ -88,6 +88,32 @@ class Ops:
     def unk(self, why, node):
         return self.interp.unknown(why, node)
 
+    def bound_symbol(self, sym: str, lo, hi_exclusive) -> None:
+        """Registers lo <= sym < hi for an integer index symbol (polynomial bounds)."""
+        if not hasattr(self, "sym_bounds"):
+            self.sym_bounds = {}
+        self.sym_bounds[sym] = (lo, hi_exclusive)
+
+    def sign_of(self, d):
+        """'neg' / 'pos' / 'zero' / None for an integer polynomial, using the registered bounds of index symbols: decides
+        differences of the form  ±(s − hi) + c  and  ±(s − lo) + c."""
+        c = d.const_value()
+        if c is not None:
+            return "zero" if c == 0 else ("pos" if c > 0 else "neg")
+        for sym, (lo, hi) in getattr(self, "sym_bounds", {}).items():
+            if sym not in d.symbols():
+                continue
+            S = Poly.sym(sym)
+            for sign in (1, -1):
+                dd = d if sign == 1 else -d
+                r = (dd - S + hi).const_value()  # dd = s - hi + r  with  s - hi <= -1
+                if r is not None and r <= 0:
+                    return "neg" if sign == 1 else "pos"
+                r = (dd - S + lo).const_value()  # dd = s - lo + r  with  s - lo >= 0
+                if r is not None and r > 0:
+                    return "pos" if sign == 1 else "neg"
+        return None
+
     def tag(self, tv, kind: str, node, **data):
         """Emits a structural-op event with a fresh id and threads the id through the result's origin."""
         self._tag_n = getattr(self, "_tag_n", 0) + 1
@@ -413,6 +439,10 @@ class Ops:
             if d is not None:
                 res = {ast.Eq: d == 0, ast.NotEq: d != 0, ast.Lt: d < 0, ast.LtE: d <= 0, ast.Gt: d > 0, ast.GtE: d >= 0}[type(op)]
                 return Const(res)
+            sg = self.sign_of(ta.poly - tb.poly) if ta.kind == "pyint" and tb.kind == "pyint" else None
+            if sg in ("neg", "pos"):
+                res = {ast.Eq: False, ast.NotEq: True, ast.Lt: sg == "neg", ast.LtE: sg == "neg", ast.Gt: sg == "pos", ast.GtE: sg == "pos"}[type(op)]
+                return Const(res)
         if ta.is_py and tb.is_py and ta.poly is not None and tb.poly is not None:
             self.ev("size_compare", node, op=type(op).__name__, diff=repr(ta.poly - tb.poly), diff_poly=ta.poly - tb.poly, left=repr(ta.poly), right=repr(tb.poly),
                     origins=sorted(ta.origin | tb.origin))
@@ -654,8 +684,9 @@ class Ops:
         if isinstance(v, ListV):
             if v.items is not None:
                 return ("concrete", list(v.items))
-            if parts and v.tail and v.head is not None:
-                return ("parts", v.head, {"over": v.over, "order": v.order, "symmetric": False, "src": v}, list(v.tail))
+            pt = v.parts() if parts else None
+            if pt:
+                return ("parts", pt[0], {"over": v.over, "order": v.order, "symmetric": False, "src": v}, list(pt[1]))
             return ("abstract", v.elem, {"over": v.over, "order": v.order, "symmetric": v.over in ("R", "Rblocks"), "src": v})
         if isinstance(v, SetV):
             if v.items is not None:
@@ -748,7 +779,9 @@ class Ops:
             return r if isinstance(r, DictV) else DictV()
         if isinstance(r, tuple) and r and r[0] == "leaf":
             e = self.strip_gen(r[1], lid)
-            return ListV(items=None, elem=e, kind="list", over=over, order=order)
+            src = info.get("src")
+            ln = src.length if isinstance(src, ListV) and not filtered and src.parts() is None else None  # one element per element of the source
+            return ListV(items=None, elem=e, kind="list", over=over, order=order, length=ln)
         if isinstance(r, ListV):
             # nested generators: flatten
             e = r.elem if r.items is None else self.set_elem(SetV(items=r.items))
